@@ -20,6 +20,7 @@ from symx.harness import (Wz, cone_set, dotz, frac_json, from_frac_json, load_re
 from symx.sym import Sym
 
 PROPERTY = "C09"
+from checks.c09_ell import ell_task  # noqa: E402,F401  (task entry point resolved in this module)
 
 
 def _mods():
